@@ -8,8 +8,10 @@ package utils
 //@ func Assert
 //@   panics_iff err != nil
 //@   ensures_panic same_error: implies(len(msg) <= 0, panicval() == err)
+//@   ensures_panic wrapped_by_errorf: implies(len(msg) > 0, errorfmade(panicval()))
 //@ func AssertIf
 //@   panics_iff exp
+//@   ensures_panic built_by_errorf: errorfmade(panicval())
 //@ func AssertLength
 //@   panics_iff err != nil
 //@   ensures result == n
